@@ -3,6 +3,7 @@ pub mod bankops;
 pub mod curve;
 pub mod panic;
 pub mod prefee;
+pub mod xrate;
 
 pub fn lookup(name: &str) -> Option<fn(&str) -> String> {
     Some(match name {
@@ -10,6 +11,7 @@ pub fn lookup(name: &str) -> Option<fn(&str) -> String> {
         "curve" => curve::run,
         "bankops" => bankops::run,
         "prefee" => prefee::run,
+        "xrate" => xrate::run,
         _ => return None,
     })
 }
